@@ -7,7 +7,12 @@ Part hist  (E2): breadth-first search over histories of ReadProperty / WriteProp
 Part sweep (E3): every registered object class x every property, one instance with a generated value per
            datatype (and a twin class whose plainly described properties are re-declared writable):
            read whole / 0 / 1 / n / n+1, ReadPropertyMultiple of the same references and of all / required /
-           optional, writes of a valid, a wrong-typed and a Null value, whole and per element.
+           optional, writes of a valid, a wrong-typed and a Null value, whole and per element; next to every swept
+           object the device's own Device object is read through the wildcard instance 4194303.
+Part cmd   (E3): two objects of one commandable class on one device; every history of valid commands, relinquishes and
+           writes of things that are not values of the datatype (bv.refs.cmdref.INVALID), with priority 8 or none; after
+           every step the command state of both objects is read back over the wire and compared with a 16-slot model, a
+           refused write must also leave the canonical dump of every object unchanged.
 
 Deviations from DESIGN.md: the standard classes declare almost every property read-only, so the history objects
 are vendor subclasses that re-declare some properties writable and the sweep adds a "writable twin" of every class
@@ -34,7 +39,8 @@ RULE = ("hist: BFS over all histories of the alphabet {ReadProperty, WriteProper
         "present value / stateText / alarmValues / eventTimeStamps writable) + 2 unknown objects x role properties "
         "{present value, array(s), list(s), read-only, absent, not in the class} x index {none,0,1,n,n+1} x value {valid1, "
         "valid2, wrong-typed, Null, two values for a scalar} (+ priority 1/16 on present value, + explicit / mixed / all / "
-        "required / optional RPM); "
+        "required / optional RPM); every read, explicit RPM and selector the device gets by its own identifier it also gets "
+        "by the wildcard identifier (device, 4194303), which the reference resolves to the device's own Device object; "
         "a state is the canonical dump of every object's _values (+ the device's object indexes); every operation is "
         "applied in every state reached by at most depth-1 state-changing operations, operations that leave the dump "
         "unchanged are applied one after another on the same live system, after a state-changing one the state is rebuilt "
@@ -43,7 +49,15 @@ RULE = ("hist: BFS over all histories of the alphabet {ReadProperty, WriteProper
         "the next request and the property is stated on the objects.  A case is distinct by (state, operation).  "
         "sweep: one long history per (class, variant): per property in table order reads at 5 indexes, one RPM with the same "
         "references, then the writes; the model follows accepted writes, system and model are rebuilt after a failing "
-        "state change; a case is distinct by (class, variant, property, operation)")
+        "state change; a case is distinct by (class, variant, property, operation); per instance the device's own Device "
+        "object is read by the wildcard identifier (ReadProperty and one RPM that names it by both identifiers).  "
+        "cmd: two objects of one commandable class on one device; alphabet = {value_i, Null (relinquish), invalid_j (every "
+        "entry of cmdref.INVALID for the class: undefined enumeration number, value of another datatype, undefined "
+        "enumeration name, out of range)} x object x priority {8, none}; all histories up to the stated length, fresh "
+        "stacks per history; after every step ReadProperty of present value and addressed array element of both objects, "
+        "after a refused step and after the last step also whole array, array length and relinquish default, compared "
+        "with a per-object 16-slot model (cmdref.CmdRef); a refused write must leave the canonical dump of all objects "
+        "unchanged; a case is distinct by (class, history)")
 ASSUMPTIONS = [
     "perfect network, one outstanding request, unsegmented requests; single thread; virtual clock bound to bacpypes.task._time",
     "values travel as tag octets produced by bacpypes' own encoders (their correctness is C01-C03); 'returns the written "
@@ -60,17 +74,28 @@ ASSUMPTIONS = [
     "(they are the configuration of the device, the handlers are what is checked); property datatypes whose generated "
     "value does not survive bacpypes' encode/decode/encode are skipped and counted",
     "values outside the alphabets (other leaf values, longer arrays, deeper histories) are not covered",
+    "the wildcard Device instance 4194303 is defined for ReadProperty and ReadPropertyMultiple only (15.5.2, 15.7.2); it is "
+    "not written to.  The reply may name the object by the identifier asked for or by the device's actual identifier; "
+    "ReadProperty and ReadPropertyMultiple have to name it the same way",
+    "cmd: a value of another application datatype has to be refused with a reply of the wrong-datatype class; an "
+    "application-tagged Enumerated whose number the enumeration does not define falls under no refusal class of the "
+    "statement: any error or reject counts as a refusal (observed replies are recorded as outcomes "
+    "cmd-invalid-write:*), its consequences are judged in full",
 ]
 BOUNDS = {
     "quick": "hist: every operation of the alphabet in every state reached by <=2 state-changing operations (all histories "
-             "of length <=3); sweep: 63 classes x {standard, writable twin} x all properties, one value variant, arrays of 2",
+             "of length <=3); sweep: 63 classes x {standard, writable twin} x all properties, one value variant, arrays of 2; "
+             "cmd: 6 classes (real, binary, character string, unsigned, octet string, bit string), all histories of "
+             "length <=2 over the whole alphabet (valid and invalid writes)",
     "thorough": "hist: every operation in every state reached by <=3 state-changing operations (histories of length <=4); "
                 "sweep: 63 classes x {standard, writable twin} x all properties x 2 value variants (other choice alternatives, "
-                "optional elements absent, arrays/lists of 3)",
+                "optional elements absent, arrays/lists of 3); cmd: 20 classes, all histories of length <=2 over the whole "
+                "alphabet (valid and invalid writes) and of length <=3 made of valid commands",
 }
 
 DEPTH = {"quick": 3, "thorough": 4}
 UNKNOWN_OBJECTS = [("analogValue", 99), ("accumulator", 1)]
+WILD = R.WILDCARD_DEVICE            # read services only: "the Device object of whoever you are"
 
 
 # =====================================================================================================
@@ -160,7 +185,7 @@ def value_class(value, ptype, index):
 def idx_class(model, objkey, prop, index):
     if index is None:
         return "whole"
-    obj = model.objects.get(objkey)
+    obj = model.objects.get(model.denotes(objkey))
     p = obj.get(prop) if obj else None
     if p is None:
         return "idx"
@@ -191,6 +216,7 @@ class Session(object):
         self.mkcase = mkcase            # opdesc -> replay case
         self.base = sysm.dump()
         self.cache = {}                 # ReadProperty replies of the current state
+        self.echo = {}                  # ... and the object identifier each acknowledgement carried
         self.badrp = set()
         self.nsw = len(vclock.swallowed)
         self.nfail = 0
@@ -209,7 +235,7 @@ class Session(object):
         self.acc.fail(sig, detail, self.mkcase(opdesc, sig))
 
     def ptype(self, objkey, prop):
-        obj = self.m.objects.get(objkey)
+        obj = self.m.objects.get(self.m.denotes(objkey))
         p = obj.get(prop) if obj else None
         return p.ptype if p is not None else None
 
@@ -219,7 +245,8 @@ class Session(object):
         if k in self.cache:
             return self.cache[k]
         opdesc = ["R", list(objkey), prop, index]
-        reply = self.s.read(objkey, prop, index)
+        reply = self.s.read(objkey, prop, index, answers=self.m.answers_as(objkey))
+        self.echo[k] = self.s.echoed
         sw = self._sw()
         self.acc.transitions += 1
         self.acc.evaluations += 1
@@ -325,6 +352,7 @@ class Session(object):
         if changed:
             self.base = after
             self.cache.clear()
+            self.echo.clear()
             self.badrp.clear()
             if self.nfail != nf0:
                 self.broken = True
@@ -385,17 +413,24 @@ class Session(object):
             self.fail("rpm:no-ack:got=%s%s" % (short(reply), "|swallowed=" + sw if sw else ""), {"op": opdesc, "reply": reply}, opdesc)
             return None
         results = reply[1]
-        if [r[0] for r in results] != [o for (o, _) in specs]:
+        # one result per specification, in the order of the request, for the object asked for (the wildcard Device
+        # instance may be answered under the device's own identifier)
+        if len(results) != len(specs) or any(r[0] not in self.m.answers_as(o) for r, (o, _) in zip(results, specs)):
             self.fail("rpm:result-objects-differ-from-request", {"op": opdesc, "got": [r[0] for r in results]}, opdesc)
             return None
         return results
 
-    def _cmp(self, objkey, prop, index, r, opdesc, what):
+    def _cmp(self, objkey, prop, index, r, opdesc, what, robj=None):
         k = (objkey, prop, index)
         rp = self.rp(objkey, prop, index)
         if k in self.badrp:
             self.acc.add_info("rpm elements not compared because ReadProperty itself failed its judgement")
             return
+        if robj is not None and rp[0] == "ack" and self.echo.get(k) is not None and self.echo[k] != robj:
+            # both are admissible on their own (reference: answers_as); the two services have to agree
+            self.fail("rpm:result-object-identifier-differs-from-readproperty-ack",
+                      {"op": opdesc, "reference": [list(objkey), prop, index], "readproperty-ack": self.echo[k],
+                       "rpm-result": robj}, opdesc)
         if rp[0] == "ack":
             ok = r == ("value", rp[1])
         elif rp[0] == "error":
@@ -415,21 +450,21 @@ class Session(object):
         results = self._rpm(specs, opdesc)
         if results is None:
             return
-        for (objkey, refs), (_, elems) in zip(specs, results):
+        for (objkey, refs), (robj, elems) in zip(specs, results):
             if [(p, i) for (p, i, _) in elems] != [(p, i) for (p, i) in refs]:
                 self.fail("rpm:references-echoed-differ-from-request",
                           {"op": opdesc, "object": objkey, "got": [(p, i) for (p, i, _) in elems]}, opdesc)
                 continue
             for (p, i, r) in elems:
-                self._cmp(objkey, p, i, r, opdesc, "explicit")
+                self._cmp(objkey, p, i, r, opdesc, "explicit", robj)
 
     def rpm_selector(self, objkey, which):
         opdesc = ["S", list(objkey), which]
         results = self._rpm([(objkey, [(which, None)])], opdesc)
         if results is None:
             return
-        elems = results[0][1]
-        if objkey not in self.m.objects:
+        robj, elems = results[0]
+        if self.m.denotes(objkey) not in self.m.objects:
             if len(elems) != 1 or elems[0][0] != which or elems[0][2] != ("error", "object", "unknownObject"):
                 self.fail("rpm:selector-on-unknown-object:not-one-embedded-unknown-object-error",
                           {"op": opdesc, "got": elems}, opdesc)
@@ -455,7 +490,7 @@ class Session(object):
             self.fail("rpm:selector-%s:property-returned-twice" % which, {"op": opdesc, "twice": dup}, opdesc)
         for (p, i, r) in elems:
             if p in want and i is None:
-                self._cmp(objkey, p, None, r, opdesc, which)
+                self._cmp(objkey, p, None, r, opdesc, which, robj)
 
 
 # =====================================================================================================
@@ -519,6 +554,8 @@ class HistAlphabet(object):
 
         self.objects = []       # (objkey, {prop: Prop}, [(prop, values)] roles)
         C = R.CONFORMANCE
+
+        self.local_device = ("device", D.DEVICE_INSTANCE)
 
         def add(objkey, typed, opaque, roles):
             props = {}
@@ -636,6 +673,13 @@ class HistAlphabet(object):
             self.values[(uo, "presentValue")] = scalar_values(reals[0], strs[0], wr_u)
             for ix in (None, 0, 1):
                 self.reads.append((uo, "presentValue", ix))
+        # the Device object addressed by the wildcard instance: every read the device gets by its own identifier
+        self.read_only_ids = [WILD]
+        for objkey, props, roles in self.objects:
+            if objkey == self.local_device:
+                for prop, values in roles:
+                    for ix in idxs(props, prop):
+                        self.reads.append((WILD, prop, ix))
         # writes, simplest first: whole valid, then the rest
         order = []
         for objkey, props, roles in self.objects:
@@ -658,11 +702,11 @@ class HistAlphabet(object):
     def model(self):
         m = R.Model()
         for objkey, props, roles in self.objects:
-            m.add(objkey, dict((n, p.copy()) for n, p in props.items()))
+            m.add(objkey, dict((n, p.copy()) for n, p in props.items()), local_device=(objkey == self.local_device))
         return m
 
     def resolve(self, model, objkey, prop, ixsym):
-        obj = model.objects.get(objkey)
+        obj = model.objects.get(model.denotes(objkey))
         p = obj.get(prop) if obj else None
         n = len(p.items) if (p is not None and p.kind() == "array") else 2
         if ixsym == "n":
@@ -686,6 +730,8 @@ class HistAlphabet(object):
                 per_obj[objkey].append(ref)
         for objkey, props, roles in self.objects:
             out.append([(objkey, per_obj[objkey])])
+        for objkey in self.read_only_ids:
+            out.append([(objkey, per_obj[objkey])])
         mixed = []
         for objkey, props, roles in self.objects:
             refs = [(roles[0][0], None), (roles[1][0], 0), (roles[1][0], self.resolve(model, objkey, roles[1][0], "n+1")),
@@ -694,6 +740,9 @@ class HistAlphabet(object):
             if len(mixed) == 2:
                 mixed.append((UNKNOWN_OBJECTS[0], [("presentValue", None), ("objectName", 1)]))
         mixed.append((UNKNOWN_OBJECTS[1], [("presentValue", None)]))
+        # the same object twice in one request, once by the wildcard instance (after the device by its identifier)
+        droles = [roles for objkey, props, roles in self.objects if objkey == self.local_device][0]
+        mixed.append((WILD, [(droles[0][0], None), (droles[1][0], 0), (droles[1][0], 1), (droles[-1][0], None)]))
         out.append(mixed)
         return out
 
@@ -772,6 +821,10 @@ def explore_state(al, hist, acc, nxt):
         for which in ("all", "required", "optional"):
             acc.case((shash, "S", objkey, which))
             ses.rpm_selector(objkey, which)
+    for objkey in al.read_only_ids:
+        for which in ("all", "required", "optional"):
+            acc.case((shash, "S", objkey, which))
+            ses.rpm_selector(objkey, which)
     for uo in UNKNOWN_OBJECTS:
         acc.case((shash, "S", uo, "all"))
         ses.rpm_selector(uo, "all")
@@ -828,6 +881,10 @@ def hist_expand(item, deadline):
 # =====================================================================================================
 
 SWEEP_INSTANCE = 7
+SWEEP_DEVICE = ("device", D.DEVICE_INSTANCE)
+SWEEP_DEVICE_NAME = "device"        # what DevSystem names its device
+SWEEP_DEVICE_REFS = [("objectIdentifier", None), ("objectName", None), ("objectName", 1), ("objectList", None),
+                     ("objectList", 0), ("objectList", 1), ("objectList", 2), ("objectList", 3)]
 
 
 class SweepObject(object):
@@ -866,10 +923,20 @@ class SweepObject(object):
             self.order.append(pid)
 
     def make(self):
+        from bacpypes.primitivedata import CharacterString, ObjectIdentifier
         obj = self.cls(**self.regen())
         sysm = D.DevSystem([obj])
         model = R.Model()
         model.add(self.objkey, dict((pid, R.Prop(pt, items, w, req)) for pid, (pt, items, w, req) in self.props.items()))
+        # the device's own Device object, only as far as the sweep asks for it (SWEEP_DEVICE_REFS, through the wildcard
+        # instance): its identifier, its name and the list of the two objects the device holds.  When the swept class
+        # is the Device class the device holds two Device objects; the wildcard is the one that describes the device.
+        oid = lambda k: D.item(ObjectIdentifier(k))
+        model.add(SWEEP_DEVICE, {
+            "objectIdentifier": R.Prop(("one", _k(12)), [oid(SWEEP_DEVICE)], False, True),
+            "objectName": R.Prop(("one", _k(7)), [D.item(CharacterString(SWEEP_DEVICE_NAME))], False, True),
+            "objectList": R.Prop(("array", _k(12), None), [oid(SWEEP_DEVICE), oid(self.objkey)], False, True),
+        }, local_device=True)
         return sysm, model
 
     def regen(self):
@@ -990,6 +1057,14 @@ def sweep_one(ci, variant, v, n, acc, only_prop=None):
                               ((objkey[0], SWEEP_INSTANCE + 1), [("objectName", None)])])
         ses.rp((objkey[0], SWEEP_INSTANCE + 1), "objectName", None)
         ses.wp((objkey[0], SWEEP_INSTANCE + 1), "objectName", None, (U(1),))
+        # the device's own Device object by the wildcard instance, next to the swept object
+        if ses.broken:
+            ses = restart()
+        acc.case((cname, variant, v, "wildcard"))
+        for (p_, i_) in SWEEP_DEVICE_REFS:
+            ses.rp(WILD, p_, i_)
+            acc.traces += 1
+        ses.rpm_explicit([(WILD, SWEEP_DEVICE_REFS), (objkey, [("objectName", None)]), (SWEEP_DEVICE, SWEEP_DEVICE_REFS[:2])])
 
 
 def sweep_shard(item, deadline):
@@ -1008,26 +1083,73 @@ def sweep_shard(item, deadline):
 # part cmd: present value and priority array of commandable objects, written and read over the wire
 # =====================================================================================================
 
-def cmd_ops(nvalues):
+CMD_PRIOS = (8, None)
+# invalid-value kinds of bv.refs.cmdref.INVALID that cross the wire as a value of ANOTHER application datatype (an
+# undefined enumeration name is a character string there, a negative number for an unsigned type a signed integer):
+# the statement's "wrong datatype".  "undefined-enumeration-value" is a correctly tagged Enumerated whose number the
+# enumeration does not define: the statement names no refusal class for it, any error or reject is a refusal.
+CMD_WRONG_DATATYPE_KINDS = ("wrong-datatype", "undefined-enumeration-name", "out-of-range")
+
+
+def cmd_ops(nvalues, ninvalid=0):
+    """Valid commands first (value or relinquish x object x priority), then the writes of things that are not values
+    of the datatype (kind x object x priority)."""
     ops = []
     for which in (0, 1):
-        for prio in (8, None):
+        for prio in CMD_PRIOS:
             for vi in range(nvalues):
                 ops.append(("w", which, prio, vi))
             ops.append(("r", which, prio))
+    for which in (0, 1):
+        for prio in CMD_PRIOS:
+            for j in range(ninvalid):
+                ops.append(("x", which, prio, j))
     return ops
+
+
+def cmd_alphabet(name):
+    from bv.refs import cmdref
+    domain = [d for (n, c, d) in cmdref.CLASSES if n == name][0]
+    return cmd_ops(len(cmdref.DOMAINS[domain]["values"]), len(cmdref.INVALID[domain]))
+
+
+def cmd_histories(ops, first, depth, xdepth, xdepth_one, lens=(1, 99)):
+    """Histories that begin with ops[first] and have lens[0] <= length <= lens[1]:
+       every history of length <= xdepth over the whole alphabet,
+       every history of length <= xdepth_one over the operations on the object of the first operation (whole alphabet),
+       every history of length <= depth made of valid commands only."""
+    import itertools as it
+    valid = [o for o in ops if o[0] != "x"]
+    f = ops[first]
+    same = [o for o in ops if o[1] == f[1]]
+    for n in range(max(1, lens[0]), min(lens[1], max(depth, xdepth, xdepth_one)) + 1):
+        for rest in it.product(ops, repeat=n - 1):
+            hist = (f,) + rest
+            if n <= xdepth:
+                yield hist
+            elif n <= xdepth_one and all(o in same for o in rest):
+                yield hist
+            elif n <= depth and f[0] != "x" and all(o[0] != "x" for o in rest):
+                yield hist
 
 
 def cmd_case(name, hist):
     """Two objects of one commandable class on one device.  Every step is a WriteProperty of presentValue with or without
-    priority (a value, or Null to relinquish) to one of them; after every acknowledged write ReadProperty of the present
-    value and of the written array element of BOTH objects must give what an independent per-object model says (priorities
-    1..16 of the quantifier; a write to one object changes no property of the other).  -> (problem or None, trace)"""
+    priority to one of them: a value, Null to relinquish, or something that is not a value of the datatype (an undefined
+    enumeration number, a value of another datatype, a number outside the range).  A valid command has to be
+    acknowledged, an invalid one has to be refused - a wrong datatype with a reply of that refusal class - and must
+    leave the canonical dump of every object of the device as it was.  After every step, acknowledged or refused,
+    ReadProperty of the present value, of the addressed array element, of the whole priority array, of its length and of
+    the relinquish default of BOTH objects must give what an independent per-object model says (priorities 1..16 of the
+    quantifier; a write to one object changes no property of the other; a refused write changes nothing, so the model is
+    what it was before).  -> (problem or None, trace)"""
     from bv.refs import cmdref
     from bv.stacks import cmdstack as cs
-    from bacpypes.basetypes import PriorityValue
+    from bacpypes.primitivedata import Unsigned
+    from bacpypes.basetypes import PriorityValue, PriorityArray
     choice, domain = [(c, d) for (n, c, d) in cmdref.CLASSES if n == name][0]
     dom = cmdref.DOMAINS[domain]
+    invalid = cmdref.INVALID[domain]
     vclock.reset(0.0)
     pair = cs.WirePair()
     objs = [cs.make_object(name, domain, instance=i + 1) for i in range(2)]
@@ -1037,23 +1159,54 @@ def cmd_case(name, hist):
     dt = objs[0].get_datatype("presentValue")
     trace = []
 
-    def read_pv(k):
-        st, anyv = pair.read(objs[k].objectIdentifier, "presentValue")
+    def rd(k, prop, idx, cast):
+        st, anyv = pair.read(objs[k].objectIdentifier, prop, idx)
         if st != ("ack",):
             return ("?answer",) + tuple(st)
         try:
-            return cs.from_py(domain, anyv.cast_out(dt))
+            return cast(anyv)
         except Exception as err:
             return ("?decode", type(err).__name__)
 
+    def read_pv(k):
+        return rd(k, "presentValue", None, lambda a: cs.from_py(domain, a.cast_out(dt)))
+
     def read_slot(k, idx):
-        st, anyv = pair.read(objs[k].objectIdentifier, "priorityArray", idx)
-        if st != ("ack",):
-            return ("?answer",) + tuple(st)
-        try:
-            return cs.slot_view(domain, choice, anyv.cast_out(PriorityValue))
-        except Exception as err:
-            return ("?decode", type(err).__name__)
+        return rd(k, "priorityArray", idx, lambda a: cs.slot_view(domain, choice, a.cast_out(PriorityValue)))
+
+    def read_array(k):
+        def whole(a):
+            arr = a.cast_out(PriorityArray)
+            if len(arr) != 16:
+                return ("?length", len(arr))
+            return tuple(cs.slot_view(domain, choice, arr[i]) for i in range(1, 17))
+        return rd(k, "priorityArray", None, whole)
+
+    def read_length(k):
+        return rd(k, "priorityArray", 0, lambda a: a.cast_out(Unsigned))
+
+    def read_rd(k):
+        return rd(k, "relinquishDefault", None, lambda a: cs.from_py(domain, a.cast_out(dt)))
+
+    def observe(step, op, which, slot, after):
+        """present value and addressed element after every step; the rest of the command state (whole array, its length,
+        relinquish default) after every refused step and after the last step of the history (every prefix of a history
+        of the enumeration is a history of the enumeration, so every reached state is observed in full)"""
+        full = after == "refused" or step == len(hist) - 1
+        for k in (0, 1):
+            who = "written" if k == which else "other"
+            probes = [("present-value", lambda: read_pv(k), refs[k].pv),
+                      ("array-element", lambda: read_slot(k, slot), refs[k].slots[slot])]
+            if full:
+                probes += [("whole-array", lambda: read_array(k), tuple(refs[k].slots[1:])),
+                           ("array-length", lambda: read_length(k), 16),
+                           ("relinquish-default", lambda: read_rd(k), refs[k].rd)]
+            for what, read, want in probes:
+                got = read()
+                if got != want:
+                    return ("cmd:%s-of-the-%s-object-differs-after-%s-write" % (what, who, after),
+                            {"step": step, "op": op, "object": k, "slot": slot, "got": got, "want": want})
+        return None
 
     # two fresh objects start from the same state
     for k in (0, 1):
@@ -1061,47 +1214,72 @@ def cmd_case(name, hist):
             return ("cmd:fresh-object-present-value-differs", {"object": k, "got": read_pv(k), "want": refs[k].pv}), trace
     for step, op in enumerate(hist):
         which, prio = op[1], op[2]
+        slot = 16 if prio is None else prio
+        if op[0] == "x":
+            kind, tagged = invalid[op[3]]
+            before = D.dump_objects(pair.device)
+            reply = pair.write(objs[which].objectIdentifier, "presentValue", cs.invalid_encodable(tagged), priority=prio)
+            if reply[0] == "reject":
+                reply = ("reject", D.REJECT_NAMES.get(reply[1], reply[1]))
+            trace.append((op, reply))
+            try:
+                refs[which].command_invalid(kind, priority=prio)
+                raise HarnessError("the reference takes an invalid value (%s) as a command" % kind)
+            except cmdref.Refused:
+                pass
+            if reply == ("ack",):
+                return ("cmd:invalid-value-acknowledged:%s" % kind, {"step": step, "op": op, "value": list(tagged)}), trace
+            if reply[0] not in ("error", "reject"):
+                return ("cmd:invalid-value-no-proper-reply:%s:got=%s" % (kind, short(reply)),
+                        {"step": step, "op": op, "value": list(tagged), "reply": reply}), trace
+            if kind in CMD_WRONG_DATATYPE_KINDS and tuple(reply) not in R.admissible(("wrong-datatype",)):
+                return ("cmd:refusal-not-admissible(wrong-datatype):%s:got=%s" % (kind, short(reply)),
+                        {"step": step, "op": op, "value": list(tagged), "reply": reply}), trace
+            after = D.dump_objects(pair.device)
+            if after != before:
+                return ("cmd:refused-write-changed-state:%s:reply=%s" % (kind, short(reply)),
+                        {"step": step, "op": op, "value": list(tagged), "reply": reply,
+                         "changed": diff_dump(before, after)}), trace
+            bad = observe(step, op, which, slot, "refused")
+            if bad is not None:
+                bad[1]["reply"] = reply
+                return bad, trace
+            continue
         value = dom["values"][op[3]] if op[0] == "w" else cmdref.NULL
         reply = pair.write(objs[which].objectIdentifier, "presentValue", cs.to_encodable(domain, value), priority=prio)
         trace.append((op, reply))
         if reply != ("ack",):
             return ("cmd:valid-command-not-acknowledged:%s" % ":".join(str(x) for x in reply[:3]), {"step": step, "op": op}), trace
         refs[which].command(value, priority=prio)
-        slot = 16 if prio is None else prio
-        for k in (0, 1):
-            got = read_pv(k)
-            if got != refs[k].pv:
-                who = "written" if k == which else "other"
-                return ("cmd:present-value-of-the-%s-object-differs-after-acknowledged-write" % who,
-                        {"step": step, "op": op, "object": k, "got": got, "want": refs[k].pv}), trace
-            got = read_slot(k, slot)
-            if got != refs[k].slots[slot]:
-                who = "written" if k == which else "other"
-                return ("cmd:array-element-of-the-%s-object-differs-after-acknowledged-write" % who,
-                        {"step": step, "op": op, "object": k, "slot": slot, "got": got, "want": refs[k].slots[slot]}), trace
+        bad = observe(step, op, which, slot, "acknowledged")
+        if bad is not None:
+            return bad, trace
+    trace.append(("transactions", pair.transactions))
     return None, trace
 
 
 def cmd_shard(item, deadline):
-    import itertools as it
-    from bv.refs import cmdref
     acc = Acc()
-    for (name, depth) in item:
-        domain = [d for (n, c, d) in cmdref.CLASSES if n == name][0]
-        ops = cmd_ops(len(cmdref.DOMAINS[domain]["values"]))
-        for n in range(1, depth + 1):
-            for hist in it.product(ops, repeat=n):
-                if time.time() > deadline:
-                    acc.cap("cmd: deadline")
-                    return acc
-                bad, trace = cmd_case(name, hist)
-                acc.case(("cmd", name, hist))
-                acc.traces += 1
-                acc.transitions += len(hist) * 5
-                acc.outcome("cmd:%s" % ("ok" if bad is None else bad[0]))
-                if bad is not None:
-                    acc.fail(bad[0], {"class": name, "history": [list(o) for o in hist], "mismatch": bad[1]},
-                             {"part": "cmd", "class": name, "hist": [list(o) for o in hist]})
+    for (name, first, depth, xdepth, xdepth_one, lens) in item:
+        ops = cmd_alphabet(name)
+        for hist in cmd_histories(ops, first, depth, xdepth, xdepth_one, lens):
+            if time.time() > deadline:
+                acc.cap("cmd: deadline")
+                return acc
+            bad, trace = cmd_case(name, hist)
+            for lname, msg in list(vclock.swallowed):       # cmd_case resets the clock, which empties the list
+                acc.swallowed["%s: %s" % (lname, msg[:70])] += 1
+            acc.case(("cmd", name, hist))
+            acc.traces += 1
+            acc.evaluations += len(hist) - 1            # acc.case counted one; every step is judged
+            acc.transitions += trace[-1][1] if (bad is None) else len(hist) * 11
+            acc.outcome("cmd:%s" % ("ok" if bad is None else bad[0]))
+            for (op, reply) in trace[:len(hist)]:
+                if op[0] == "x":
+                    acc.outcome("cmd-invalid-write:%s" % short(reply))
+            if bad is not None:
+                acc.fail(bad[0], {"class": name, "history": [list(o) for o in hist], "mismatch": bad[1]},
+                         {"part": "cmd", "class": name, "hist": [list(o) for o in hist]})
     return acc
 
 # =====================================================================================================
@@ -1124,8 +1302,32 @@ def run(tier, seed, deadline):
     acc.info["sweep wall s"] = round(time.time() - t0, 1)
     sweep_eval = acc.evaluations
     acc.info["sweep: evaluations"] = sweep_eval
+    # -- commandable objects (two of a class), present value / priority array over the wire (short, fixed cost: before
+    #    the histories, which take what is left)
+    from bv.refs import cmdref
+    if tier == "quick":
+        names = ["AnalogValueCmdObject", "BinaryOutputCmdObject", "CharacterStringValueCmdObject", "MultiStateValueCmdObject",
+                 "OctetStringValueCmdObject", "BitStringValueCmdObject"]
+        depth, xdepth, xdepth_one = 2, 2, 2
+    else:
+        names = [n for (n, c, d) in cmdref.CLASSES]
+        depth, xdepth, xdepth_one = 3, 2, 2
+    t2 = time.time()
+    ev0 = acc.evaluations
+    # simplest first: every history of length <= 2 of every class, then the longer ones (the valid first operations
+    # carry them)
+    firsts = [(n, first) for n in names for first in range(len(cmd_alphabet(n)))]
+    items = [[(n, first, depth, xdepth, xdepth_one, (1, 2))] for (n, first) in firsts]
+    if max(depth, xdepth, xdepth_one) > 2:
+        items += [[(n, first, depth, xdepth, xdepth_one, (3, 99))] for (n, first) in firsts
+                  if cmd_alphabet(n)[first][0] != "x" or max(xdepth, xdepth_one) > 2]
+    run_shards(cmd_shard, items, t2 + (deadline - t2) * 0.3, into=acc)
+    acc.info["cmd wall s"] = round(time.time() - t2, 1)
+    acc.info["cmd: evaluations"] = acc.evaluations - ev0
+    acc.info["cmd: classes"] = len(names)
     # -- histories
     t1 = time.time()
+    ev1 = acc.evaluations
     al = alphabet(tier, seed)
     sysm, _ = build_state(al, ())
     init_hash = h64(sysm.dump())
@@ -1133,18 +1335,7 @@ def run(tier, seed, deadline):
     bfs(hist_expand, (tier, seed), (), init_hash, DEPTH[tier], deadline, acc, max_states=400000, label="hist",
         shards_per_level=256)
     acc.info["hist wall s"] = round(time.time() - t1, 1)
-    acc.info["hist: evaluations"] = acc.evaluations - sweep_eval
-    # -- commandable objects (two of a class), present value / priority array over the wire
-    from bv.refs import cmdref
-    if tier == "quick":
-        names = ["AnalogValueCmdObject", "BinaryOutputCmdObject", "CharacterStringValueCmdObject", "MultiStateValueCmdObject",
-                 "OctetStringValueCmdObject", "BitStringValueCmdObject"]
-        depth = 2
-    else:
-        names = [n for (n, c, d) in cmdref.CLASSES]
-        depth = 3
-    run_shards(cmd_shard, [[(n, depth)] for n in names], deadline, into=acc)
-    acc.info["cmd: classes"] = len(names)
+    acc.info["hist: evaluations"] = acc.evaluations - ev1
     return acc
 
 
